@@ -29,6 +29,7 @@ import (
 	"github.com/cloudwego/eino/components/model"
 	"github.com/cloudwego/eino/components/tool"
 	"github.com/cloudwego/eino/compose"
+	"github.com/cloudwego/eino/flow/agent"
 	"github.com/cloudwego/eino/flow/agent/react"
 	"github.com/cloudwego/eino/schema"
 
@@ -82,6 +83,11 @@ type Case struct {
 	MaxStep      int       `json:"max_step"`
 	Checker      string    `json:"checker"` // default | exact
 	Persona      string    `json:"persona,omitempty"`
+	Mod          string    `json:"mod,omitempty"`         // "" | rewrite | window : a MessageModifier that works in place on the slice it is given
+	RuntimeMax   int       `json:"runtime_max,omitempty"` // > 0: call option compose.WithRuntimeMaxSteps through agent.WithComposeOptions
+	ToolOpt      bool      `json:"tool_opt,omitempty"`    // call option react.WithToolOptions(marker): every tool must receive it
+	Future       bool      `json:"future,omitempty"`      // call option react.WithMessageFuture: the messages handed out are observed
+	Exported     bool      `json:"exported,omitempty"`    // additionally run the agent as a node of a parent graph (Agent.ExportGraph)
 	ModelAPI     string    `json:"model_api"` // chat | toolcalling
 	IndexInWhole bool      `json:"index_in_whole,omitempty"`
 	PipeStream   bool      `json:"pipe_stream,omitempty"` // the model streams through a Pipe (else array-backed)
@@ -95,7 +101,12 @@ type Case struct {
 type exec struct {
 	Round int
 	Call  TCall
+	Opt   bool // the tool received the marker option of react.WithToolOptions
 }
+
+type toolOpts struct{ marker string }
+
+const toolMarker = "c18-marker"
 
 type modelCall struct {
 	rendered []Msg
@@ -161,6 +172,8 @@ func (e *toolErr) Error() string { return "TOOLERR#" }
 type fakeModel struct {
 	c     *Case
 	bound []string
+	binds *int // how often tools were bound (shared with the instances WithTools derives)
+	root  *fakeModel
 }
 
 func (m *fakeModel) BindTools(ts []*schema.ToolInfo) error {
@@ -168,11 +181,15 @@ func (m *fakeModel) BindTools(ts []*schema.ToolInfo) error {
 	for _, t := range ts {
 		m.bound = append(m.bound, t.Name)
 	}
+	*m.binds++
+	if m.root != nil {
+		m.root.bound = m.bound
+	}
 	return nil
 }
 
 func (m *fakeModel) WithTools(ts []*schema.ToolInfo) (model.ToolCallingChatModel, error) {
-	n := &fakeModel{c: m.c}
+	n := &fakeModel{c: m.c, binds: m.binds, root: m}
 	_ = n.BindTools(ts)
 	return n, nil
 }
@@ -259,13 +276,14 @@ func (t *recTool) Info(context.Context) (*schema.ToolInfo, error) {
 	return &schema.ToolInfo{Name: t.name, Desc: "recording tool " + t.name}, nil
 }
 
-func (t *recTool) record(ctx context.Context, name, args string) bool {
+func (t *recTool) record(ctx context.Context, name, args string, opts ...tool.Option) bool {
 	rc := recOf(ctx)
 	if rc == nil {
 		panic("harness: the context handed to a tool lost the caller's values")
 	}
+	o := tool.GetImplSpecificOptions(&toolOpts{}, opts...)
 	rc.mu.Lock()
-	rc.execs = append(rc.execs, exec{len(rc.calls) - 1, TCall{compose.GetToolCallID(ctx), name, args}})
+	rc.execs = append(rc.execs, exec{len(rc.calls) - 1, TCall{compose.GetToolCallID(ctx), name, args}, o.marker == toolMarker})
 	rc.mu.Unlock()
 	for _, f := range t.c.FailArgs {
 		if f == args {
@@ -275,15 +293,15 @@ func (t *recTool) record(ctx context.Context, name, args string) bool {
 	return true
 }
 
-func (t *recTool) invoke(ctx context.Context, args string) (string, error) {
-	if !t.record(ctx, t.name, args) {
+func (t *recTool) invoke(ctx context.Context, args string, opts ...tool.Option) (string, error) {
+	if !t.record(ctx, t.name, args, opts...) {
 		return "", &toolErr{}
 	}
 	return t.name + "(" + args + ")", nil
 }
 
-func (t *recTool) stream(ctx context.Context, args string) (*schema.StreamReader[string], error) {
-	if !t.record(ctx, t.name, args) {
+func (t *recTool) stream(ctx context.Context, args string, opts ...tool.Option) (*schema.StreamReader[string], error) {
+	if !t.record(ctx, t.name, args, opts...) {
 		return nil, &toolErr{}
 	}
 	return schema.StreamReaderFromArray([]string{t.name, "(", args, ")"}), nil
@@ -291,23 +309,23 @@ func (t *recTool) stream(ctx context.Context, args string) (*schema.StreamReader
 
 type invTool struct{ recTool }
 
-func (t *invTool) InvokableRun(ctx context.Context, a string, _ ...tool.Option) (string, error) {
-	return t.invoke(ctx, a)
+func (t *invTool) InvokableRun(ctx context.Context, a string, o ...tool.Option) (string, error) {
+	return t.invoke(ctx, a, o...)
 }
 
 type strTool struct{ recTool }
 
-func (t *strTool) StreamableRun(ctx context.Context, a string, _ ...tool.Option) (*schema.StreamReader[string], error) {
-	return t.stream(ctx, a)
+func (t *strTool) StreamableRun(ctx context.Context, a string, o ...tool.Option) (*schema.StreamReader[string], error) {
+	return t.stream(ctx, a, o...)
 }
 
 type bothTool struct{ recTool }
 
-func (t *bothTool) InvokableRun(ctx context.Context, a string, _ ...tool.Option) (string, error) {
-	return t.invoke(ctx, a)
+func (t *bothTool) InvokableRun(ctx context.Context, a string, o ...tool.Option) (string, error) {
+	return t.invoke(ctx, a, o...)
 }
-func (t *bothTool) StreamableRun(ctx context.Context, a string, _ ...tool.Option) (*schema.StreamReader[string], error) {
-	return t.stream(ctx, a)
+func (t *bothTool) StreamableRun(ctx context.Context, a string, o ...tool.Option) (*schema.StreamReader[string], error) {
+	return t.stream(ctx, a, o...)
 }
 
 func exactChecker(_ context.Context, sr *schema.StreamReader[*schema.Message]) (bool, error) {
@@ -325,6 +343,27 @@ func exactChecker(_ context.Context, sr *schema.StreamReader[*schema.Message]) (
 			found = true
 		}
 	}
+}
+
+// message modifiers that work IN PLACE on the slice they are given (NewAgent hands the modifier a
+// copy of the history, so this must never reach the history kept in the graph state)
+func rewriteModifier(_ context.Context, in []*schema.Message) []*schema.Message {
+	if len(in) > 0 {
+		m := *in[0]
+		m.Content = "R:" + m.Content
+		in[0] = &m
+	}
+	return in
+}
+
+const windowN = 3
+
+func windowModifier(_ context.Context, in []*schema.Message) []*schema.Message {
+	if len(in) > windowN {
+		copy(in, in[len(in)-windowN:])
+		in = in[:windowN]
+	}
+	return in
 }
 
 func buildAgent(c *Case) (*react.Agent, error) {
@@ -358,16 +397,33 @@ func buildAgent(c *Case) (*react.Agent, error) {
 	if c.Checker == "exact" {
 		cfg.StreamToolCallChecker = exactChecker
 	}
-	if c.Persona != "" {
+	switch {
+	case c.Mod == "rewrite":
+		cfg.MessageModifier = rewriteModifier
+	case c.Mod == "window":
+		cfg.MessageModifier = windowModifier
+	case c.Persona != "":
 		cfg.MessageModifier = react.NewPersonaModifier(c.Persona)
 	}
-	fm := &fakeModel{c: c}
+	fm := &fakeModel{c: c, binds: new(int)}
 	if c.ModelAPI == "toolcalling" {
 		cfg.ToolCallingModel = fm
 	} else {
 		cfg.Model = fm
 	}
-	return react.NewAgent(context.Background(), cfg)
+	ag, err := react.NewAgent(context.Background(), cfg)
+	if err != nil {
+		return nil, err
+	}
+	// the model is told about exactly the configured tools, once, in configuration order
+	var want []string
+	for _, d := range c.Tools {
+		want = append(want, d.Name)
+	}
+	if *fm.binds != 1 || !reflect.DeepEqual(fm.bound, want) {
+		return nil, fmt.Errorf("BINDTOOLS: the model was bound %d times, to the tools %v; configured %v", *fm.binds, fm.bound, want)
+	}
+	return ag, nil
 }
 
 func inputMsgs(c *Case) []*schema.Message {
@@ -403,11 +459,53 @@ type Out struct {
 }
 
 type RunObs struct {
-	Mode    string    `json:"mode"` // generate | stream
-	Inputs  [][]Msg   `json:"inputs"`
-	Rounds  [][]TCall `json:"rounds"`
-	Out     Out       `json:"out"`
-	Mutated bool      `json:"mutated,omitempty"` // a history slice handed to the model changed afterwards
+	Mode     string    `json:"mode"` // generate | stream
+	Exported bool      `json:"exported,omitempty"` // run as a node of a parent graph
+	Inputs   [][]Msg   `json:"inputs"`
+	Rounds   [][]TCall `json:"rounds"`
+	Out      Out       `json:"out"`
+	Mutated  bool      `json:"mutated,omitempty"`      // a history slice handed to the model changed afterwards
+	InMut    bool      `json:"input_mutated,omitempty"` // the caller's input slice / messages changed
+	OptLost  int       `json:"opt_lost,omitempty"`     // tool executions that did not receive the WithToolOptions marker
+	HasEmits bool      `json:"has_emits,omitempty"`    // the run used WithMessageFuture
+	Emits    []Msg     `json:"emits,omitempty"`        // messages handed out by the future (tool messages of a round in call order)
+	FutEnd   string    `json:"future_end,omitempty"`   // closed | error | hang
+}
+
+// what is run: the agent itself, or a parent graph holding the exported agent graph as its only node
+type target struct {
+	gen      func(ctx context.Context, in []*schema.Message, opts ...agent.AgentOption) (*schema.Message, error)
+	str      func(ctx context.Context, in []*schema.Message, opts ...agent.AgentOption) (*schema.StreamReader[*schema.Message], error)
+	exported bool
+}
+
+func agentTarget(ag *react.Agent) *target { return &target{gen: ag.Generate, str: ag.Stream} }
+
+func exportedTarget(ag *react.Agent) (*target, error) {
+	g, gopts := ag.ExportGraph()
+	parent := compose.NewGraph[[]*schema.Message, *schema.Message]()
+	if err := parent.AddGraphNode("agent", g, gopts...); err != nil {
+		return nil, err
+	}
+	if err := parent.AddEdge(compose.START, "agent"); err != nil {
+		return nil, err
+	}
+	if err := parent.AddEdge("agent", compose.END); err != nil {
+		return nil, err
+	}
+	run, err := parent.Compile(context.Background())
+	if err != nil {
+		return nil, err
+	}
+	return &target{
+		gen: func(ctx context.Context, in []*schema.Message, _ ...agent.AgentOption) (*schema.Message, error) {
+			return run.Invoke(ctx, in)
+		},
+		str: func(ctx context.Context, in []*schema.Message, _ ...agent.AgentOption) (*schema.StreamReader[*schema.Message], error) {
+			return run.Stream(ctx, in)
+		},
+		exported: true,
+	}, nil
 }
 
 func classify(err error) int {
@@ -428,22 +526,89 @@ func short(s string) string {
 	return s
 }
 
-func runAgent(ag *react.Agent, c *Case, mode string) (o RunObs) {
-	o.Mode = mode
+func runAgent(tg *target, c *Case, mode string) (o RunObs) {
+	o.Mode, o.Exported = mode, tg.exported
 	rc := &recorder{}
 	ctx := context.WithValue(context.Background(), recKey{}, rc)
 	in := inputMsgs(c)
+	inBefore := renderAll(in)
+	inPtrs := append([]*schema.Message{}, in...)
+
+	// call options (none when the agent runs inside a parent graph: they would address the parent)
+	var opts []agent.AgentOption
+	var fut react.MessageFuture
+	if !tg.exported {
+		if c.RuntimeMax > 0 {
+			opts = append(opts, agent.WithComposeOptions(compose.WithRuntimeMaxSteps(c.RuntimeMax)))
+		}
+		if c.ToolOpt {
+			opts = append(opts, react.WithToolOptions(tool.WrapImplSpecificOptFn(func(t *toolOpts) { t.marker = toolMarker })))
+		}
+		if c.Future {
+			var fo agent.AgentOption
+			fo, fut = react.WithMessageFuture()
+			opts = append(opts, fo)
+		}
+	}
+	var emits []Msg
+	futEnd := ""
+	futDone := make(chan struct{})
+	if fut != nil {
+		go func() {
+			defer close(futDone)
+			p := lib.Recover(func() {
+				if mode == "generate" {
+					it := fut.GetMessages()
+					for {
+						m, ok, err := it.Next()
+						if !ok {
+							futEnd = "closed"
+							return
+						}
+						if err != nil {
+							futEnd = "error"
+							return
+						}
+						emits = append(emits, render(m))
+					}
+				}
+				it := fut.GetMessageStreams()
+				for {
+					sr, ok, err := it.Next()
+					if !ok {
+						futEnd = "closed"
+						return
+					}
+					if err != nil {
+						futEnd = "error"
+						return
+					}
+					m, cerr := schema.ConcatMessageStream(sr)
+					if cerr != nil {
+						continue // chunks that do not concatenate: the run fails on them, too
+					}
+					emits = append(emits, render(m))
+				}
+			})
+			if p != nil {
+				futEnd = "panic: " + short(fmt.Sprint(p))
+			}
+		}()
+	} else {
+		close(futDone)
+	}
+
 	var final *schema.Message
 	var err error
 	done := make(chan any, 1)
 	go func() {
 		done <- lib.Recover(func() {
 			if mode == "generate" {
-				final, err = ag.Generate(ctx, in)
+				final, err = tg.gen(ctx, in, opts...)
 				return
 			}
 			var sr *schema.StreamReader[*schema.Message]
-			sr, err = ag.Stream(ctx, in)
+			sr, err = tg.str(ctx, in, opts...)
 			if err != nil {
 				return
 			}
@@ -465,6 +630,23 @@ func runAgent(ag *react.Agent, c *Case, mode string) (o RunObs) {
 		o.Out = Out{Class: "hang"}
 		return
 	}
+	if fut != nil {
+		select {
+		case <-futDone:
+		case <-time.After(5 * time.Second):
+			o.HasEmits, o.FutEnd = true, "hang"
+			return
+		}
+		o.HasEmits, o.FutEnd = true, futEnd
+	}
+	if !reflect.DeepEqual(renderAll(in), inBefore) {
+		o.InMut = true
+	}
+	for i := range in {
+		if in[i] != inPtrs[i] {
+			o.InMut = true
+		}
+	}
 	rc.mu.Lock()
 	defer rc.mu.Unlock()
 	for _, mc := range rc.calls {
@@ -472,6 +654,17 @@ func runAgent(ag *react.Agent, c *Case, mode string) (o RunObs) {
 		if !reflect.DeepEqual(renderAll(mc.retained), mc.rendered) {
 			o.Mutated = true
 		}
+	}
+	// position of a call in the k-th scripted reply
+	pos := func(r int, x TCall) int {
+		if r >= 0 && r < len(c.Script) {
+			for i, cl := range c.Script[r].Calls {
+				if cl == x {
+					return i
+				}
+			}
+		}
+		return 1 << 20
 	}
 	// tool executions grouped by round, in the order of the calls of that round's assistant message
 	byRound := map[int][]TCall{}
@@ -481,22 +674,52 @@ func runAgent(ag *react.Agent, c *Case, mode string) (o RunObs) {
 			rounds = append(rounds, e.Round)
 		}
 		byRound[e.Round] = append(byRound[e.Round], e.Call)
+		if c.ToolOpt && !tg.exported && !e.Opt && c.kindOf(e.Call.Name) != "" {
+			o.OptLost++
+		}
 	}
 	sort.Ints(rounds)
 	for _, r := range rounds {
 		xs := byRound[r]
-		pos := func(x TCall) int {
-			if r >= 0 && r < len(c.Script) {
-				for i, cl := range c.Script[r].Calls {
-					if cl == x {
-						return i
+		sort.SliceStable(xs, func(i, j int) bool { return pos(r, xs[i]) < pos(r, xs[j]) })
+		o.Rounds = append(o.Rounds, xs)
+	}
+	// the messages of the future: the tools of a round finish in any order, so every maximal run
+	// of tool messages is put in the order of the calls of the assistant message before it; the
+	// tool messages of a round that failed (some tools of it succeeded) are not compared
+	if o.HasEmits {
+		var outE []Msg
+		i := 0
+		for i < len(emits) {
+			if emits[i].Role != 3 {
+				outE = append(outE, emits[i])
+				i++
+				continue
+			}
+			j := i
+			for j < len(emits) && emits[j].Role == 3 {
+				j++
+			}
+			grp := append([]Msg{}, emits[i:j]...)
+			var calls []TCall
+			if len(outE) > 0 {
+				calls = outE[len(outE)-1].Calls
+			}
+			p := func(m Msg) int {
+				for k, cl := range calls {
+					if cl.ID == m.TCID {
+						return k
 					}
 				}
+				return 1 << 20
 			}
-			return 1 << 20
+			sort.SliceStable(grp, func(a, b int) bool { return p(grp[a]) < p(grp[b]) })
+			if !(j == len(emits) && o.Out.Class == "err" && o.Out.Err == 3) {
+				outE = append(outE, grp...)
+			}
+			i = j
 		}
-		sort.SliceStable(xs, func(i, j int) bool { return pos(xs[i]) < pos(xs[j]) })
-		o.Rounds = append(o.Rounds, xs)
+		o.Emits = outE
 	}
 	return
 }
@@ -539,6 +762,11 @@ func (c *Case) inRD(name string) bool {
 // tools, direct return) costs one step of MaxStep (0 = number of nodes + 10).
 // stopAt >= 0: pretend the checker does not see the tool calls of step stopAt (known finding).
 func (c *Case) specRun(stopAt int) (o RunObs) {
+	return c.specRunWith(stopAt, true)
+}
+
+// callOpts: the call options of the case apply (false for the run inside a parent graph)
+func (c *Case) specRunWith(stopAt int, callOpts bool) (o RunObs) {
 	budget := c.MaxStep
 	if budget == 0 {
 		budget = 12
@@ -546,6 +774,10 @@ func (c *Case) specRun(stopAt int) (o RunObs) {
 			budget = 13
 		}
 	}
+	if callOpts && c.RuntimeMax > 0 {
+		budget = c.RuntimeMax
+	}
+	o.HasEmits = callOpts && c.Future
 	hist := append([]Msg{}, c.Input...)
 	fail := func(cls int) RunObs { o.Out = Out{Class: "err", Err: cls}; return o }
 	for k := 0; ; k++ {
@@ -554,7 +786,16 @@ func (c *Case) specRun(stopAt int) (o RunObs) {
 		}
 		budget--
 		seen := append([]Msg{}, hist...)
-		if c.Persona != "" {
+		switch {
+		case c.Mod == "rewrite":
+			if len(seen) > 0 {
+				seen[0].Content = "R:" + seen[0].Content
+			}
+		case c.Mod == "window":
+			if len(seen) > windowN {
+				seen = seen[len(seen)-windowN:]
+			}
+		case c.Persona != "":
 			seen = append([]Msg{{Role: 0, Content: c.Persona}}, seen...)
 		}
 		o.Inputs = append(o.Inputs, seen)
@@ -563,6 +804,9 @@ func (c *Case) specRun(stopAt int) (o RunObs) {
 		}
 		st := c.Script[k]
 		am := Msg{Role: 2, Content: st.Content, Calls: st.Calls}
+		if o.HasEmits {
+			o.Emits = append(o.Emits, am)
+		}
 		if len(st.Calls) == 0 || k == stopAt {
 			o.Out = Out{Class: "final", Msg: &am}
 			return o
@@ -598,6 +842,14 @@ func (c *Case) specRun(stopAt int) (o RunObs) {
 		}
 		if failed {
 			return fail(3)
+		}
+		if o.HasEmits {
+			// only tool components have callbacks: an answer of the UnknownToolsHandler is not handed out
+			for i, cl := range st.Calls {
+				if c.kindOf(cl.Name) != "" {
+					o.Emits = append(o.Emits, results[i])
+				}
+			}
 		}
 		rdID := "" // getReturnDirectlyToolCallID: the id of the first call to a return-directly tool
 		if len(c.RD) > 0 {
@@ -639,6 +891,9 @@ func sameRun(a, b *RunObs) string {
 	if a.Out.Msg != nil && !reflect.DeepEqual(normMsg(*a.Out.Msg), normMsg(*b.Out.Msg)) {
 		return "final answer"
 	}
+	if a.HasEmits && b.HasEmits && !reflect.DeepEqual(normInputs([][]Msg{a.Emits}), normInputs([][]Msg{b.Emits})) {
+		return "messages of the future"
+	}
 	return ""
 }
 
@@ -674,17 +929,33 @@ func (c *Case) contentBeforeToolCall(reached int) int {
 		if st.Fail || len(st.Calls) == 0 {
 			continue
 		}
-		if !defaultChecker(st.Chunks) {
+		if contentChunkBeforeToolCallChunk(st.Chunks) {
 			return k
 		}
 	}
 	return -1
 }
 
+// the structural part of the known finding, stated positively (not as "the default checker
+// says no"): some chunk carries a tool-call fragment, and before the first such chunk there is
+// a chunk with non-empty content
+func contentChunkBeforeToolCallChunk(chunks []Chunk) bool {
+	sawContent := false
+	for _, ch := range chunks {
+		if len(ch.Frags) > 0 {
+			return sawContent
+		}
+		if ch.Content != "" {
+			sawContent = true
+		}
+	}
+	return false
+}
+
 func js(x any) string { b, _ := json.Marshal(x); return string(b) }
 
-func (c *Case) oracle(gen, str *RunObs, conc []RunObs) (string, string) {
-	for _, o := range append([]RunObs{*gen, *str}, conc...) {
+func (c *Case) oracle(gen, str *RunObs, conc []RunObs, exp []RunObs) (string, string) {
+	for _, o := range append(append([]RunObs{*gen, *str}, conc...), exp...) {
 		switch o.Out.Class {
 		case "hang":
 			return o.Mode + ": the agent did not return within 10s", "hang"
@@ -693,6 +964,21 @@ func (c *Case) oracle(gen, str *RunObs, conc []RunObs) (string, string) {
 		}
 		if o.Mutated {
 			return o.Mode + ": a message history handed to the model was modified afterwards", "history-mutated"
+		}
+		if o.InMut {
+			return o.Mode + ": the caller's input messages were modified", "caller-input-mutated"
+		}
+		if o.OptLost > 0 {
+			return fmt.Sprintf("%s: %d tool executions did not receive the option given with react.WithToolOptions", o.Mode, o.OptLost), "tool-option-lost"
+		}
+		if o.HasEmits {
+			want := "closed"
+			if o.Out.Class == "err" {
+				want = "error"
+			}
+			if o.FutEnd != want {
+				return fmt.Sprintf("%s: the message future ended with %q, expected %q (run outcome %s)", o.Mode, o.FutEnd, want, o.Out.Class), "future-end"
+			}
 		}
 	}
 	spec := c.specRun(-1)
@@ -720,6 +1006,21 @@ func (c *Case) oracle(gen, str *RunObs, conc []RunObs) (string, string) {
 		}
 		if d := sameRun(&conc[i], want); d != "" {
 			return fmt.Sprintf("a concurrent %s run differs from the sequential one in %s", conc[i].Mode, d), "concurrent-differs:" + d
+		}
+	}
+	// the agent as a node of a parent graph (no call options there): the property's loop again
+	specX := c.specRunWith(-1, false)
+	for i := range exp {
+		if d := sameRun(&exp[i], &specX); d != "" {
+			if exp[i].Mode == "stream" && c.Checker == "default" {
+				if k := c.contentBeforeToolCall(len(specX.Inputs)); k >= 0 {
+					cut := c.specRunWith(k, false)
+					if sameRun(&exp[i], &cut) == "" {
+						return fmt.Sprintf("Stream (agent exported into a parent graph) returns the tool-calling message of model call %d instead of running its tools (default first-chunk checker, content streamed before the tool call)", k), sigKnown
+					}
+				}
+			}
+			return fmt.Sprintf("the exported agent graph run by %s inside a parent graph differs from the property in %s: got %s, expected %s", exp[i].Mode, d, js(exp[i]), js(specX)), "exported-differs:" + d
 		}
 	}
 	return "", ""
@@ -800,7 +1101,11 @@ func (o *RunObs) coq() string {
 	default:
 		return ""
 	}
-	return lib.CoqApp("ORun", md, lib.CoqList(ins), lib.CoqList(rs), out)
+	em := "None"
+	if o.HasEmits {
+		em = lib.CoqSome(coqMsgs(o.Emits))
+	}
+	return lib.CoqApp("ORun", md, lib.CoqBool(!o.Exported), lib.CoqList(ins), lib.CoqList(rs), em, out)
 }
 
 func (c *Case) coq(runs []string) string {
@@ -836,8 +1141,15 @@ func (c *Case) coq(runs []string) string {
 		}
 		script[i] = lib.CoqApp("SMsg", S(st.Content), coqCalls(st.Calls), lib.CoqList(chs))
 	}
+	mod := "0"
+	switch c.Mod {
+	case "rewrite":
+		mod = "1"
+	case "window":
+		mod = "2"
+	}
 	return lib.CoqApp("mkCase", lib.CoqList(tools), lib.CoqList(fa), lib.CoqBool(c.Handler), lib.CoqList(rd),
-		lib.CoqNat(c.MaxStep), lib.CoqBool(c.Checker != "exact"), persona, coqMsgs(c.Input),
+		lib.CoqNat(c.MaxStep), lib.CoqNat(c.RuntimeMax), lib.CoqBool(c.Checker != "exact"), persona, "("+mod+"%N)", coqMsgs(c.Input),
 		lib.CoqList(script), lib.CoqList(runs))
 }
 
@@ -945,8 +1257,13 @@ func genCase(r *lib.Rng, tier string) *Case {
 		}
 	}
 	c.Handler = r.Chance(1, 5)
-	if r.Chance(1, 5) {
+	switch r.Intn(10) {
+	case 0, 1:
 		c.Persona = "You are a careful agent."
+	case 2:
+		c.Mod = "rewrite"
+	case 3:
+		c.Mod = "window"
 	}
 	if r.Chance(1, 6) {
 		c.FailArgs = append(c.FailArgs, `{"q":"`+r.Pick(wordPool)+`"}`)
@@ -1003,6 +1320,12 @@ func genCase(r *lib.Rng, tier string) *Case {
 	if r.Chance(1, 3) {
 		c.Concurrent = r.Range(2, 4)
 	}
+	if r.Chance(1, 6) {
+		c.RuntimeMax = r.Range(1, 2*L+2) // the call option overrides MaxStep
+	}
+	c.ToolOpt = r.Chance(1, 3)
+	c.Future = r.Chance(1, 3)
+	c.Exported = r.Chance(1, 4)
 	return c
 }
 
@@ -1039,8 +1362,19 @@ func (engine) Run(ci any) lib.Result {
 		res.Oracle, res.Sig = "NewAgent failed: "+err.Error(), "setup"
 		return res
 	}
-	gen := runAgent(ag, c, "generate")
-	str := runAgent(ag, c, "stream")
+	tg := agentTarget(ag)
+	gen := runAgent(tg, c, "generate")
+	str := runAgent(tg, c, "stream")
+	var exp []RunObs
+	if c.Exported {
+		xt, err := exportedTarget(ag)
+		if err != nil {
+			res.Obs = map[string]string{"setup": err.Error()}
+			res.Oracle, res.Sig = "the exported agent graph could not be added to / compiled in a parent graph: "+err.Error(), "setup-exported"
+			return res
+		}
+		exp = []RunObs{runAgent(xt, c, "generate"), runAgent(xt, c, "stream")}
+	}
 	var conc []RunObs
 	if c.Concurrent > 0 {
 		conc = make([]RunObs, c.Concurrent)
@@ -1053,19 +1387,25 @@ func (engine) Run(ci any) lib.Result {
 				if i%2 == 1 {
 					mode = "stream"
 				}
-				conc[i] = runAgent(ag, c, mode)
+				conc[i] = runAgent(tg, c, mode)
 			}(i)
 		}
 		wg.Wait()
 	}
-	res.Obs = map[string]any{"generate": gen, "stream": str, "concurrent": len(conc)}
-	res.Oracle, res.Sig = c.oracle(&gen, &str, conc)
+	res.Obs = map[string]any{"generate": gen, "stream": str, "concurrent": len(conc), "exported": exp}
+	res.Oracle, res.Sig = c.oracle(&gen, &str, conc, exp)
 
 	cur = &interner{names: map[string]string{}}
 	defer func() { cur = nil }()
 	g, s := gen.coq(), str.coq()
 	if g != "" && s != "" {
-		res.CoqTerm = cur.wrap(c.coq([]string{g, s}))
+		runs := []string{g, s}
+		for i := range exp {
+			if x := exp[i].coq(); x != "" {
+				runs = append(runs, x)
+			}
+		}
+		res.CoqTerm = cur.wrap(c.coq(runs))
 	}
 
 	calls := 0
@@ -1084,18 +1424,22 @@ func (engine) Run(ci any) lib.Result {
 		return o.Out.Class
 	}
 	ms := "default"
-	if c.MaxStep > 0 {
+	limit := c.MaxStep
+	if c.RuntimeMax > 0 {
+		limit = c.RuntimeMax
+	}
+	if limit > 0 {
 		big := *c
-		big.MaxStep = 1000
+		big.MaxStep, big.RuntimeMax = 1000, 0
 		free := big.specRun(-1)
 		need := len(free.Inputs) + len(free.Rounds)
 		if free.Out.Class == "final" && free.Out.Msg.Role == 3 {
 			need++ // the direct_return node
 		}
 		switch {
-		case c.MaxStep < need:
+		case limit < need:
 			ms = "below"
-		case c.MaxStep == need:
+		case limit == need:
 			ms = "at"
 		default:
 			ms = "above"
@@ -1104,7 +1448,16 @@ func (engine) Run(ci any) lib.Result {
 	res.Tags = []string{fmt.Sprintf("script:%d", len(c.Script)), fmt.Sprintf("model-calls:%d", len(gen.Inputs)),
 		fmt.Sprintf("tool-rounds:%d", len(gen.Rounds)), "checker:" + c.Checker, "api:" + c.ModelAPI,
 		fmt.Sprintf("rd:%v", len(c.RD) > 0), "maxstep:" + ms, "generate:" + outTag(&gen), "stream:" + outTag(&str),
-		fmt.Sprintf("persona:%v", c.Persona != ""), fmt.Sprintf("concurrent:%d", c.Concurrent)}
+		fmt.Sprintf("concurrent:%d", c.Concurrent), fmt.Sprintf("runtime-max:%v", c.RuntimeMax > 0),
+		fmt.Sprintf("tool-opt:%v", c.ToolOpt), fmt.Sprintf("future:%v", c.Future), fmt.Sprintf("exported:%v", c.Exported)}
+	switch {
+	case c.Mod != "":
+		res.Tags = append(res.Tags, "modifier:"+c.Mod+"(in place)")
+	case c.Persona != "":
+		res.Tags = append(res.Tags, "modifier:persona")
+	default:
+		res.Tags = append(res.Tags, "modifier:none")
+	}
 	if c.Checker == "default" && c.contentBeforeToolCall(len(c.Script)) >= 0 {
 		res.Tags = append(res.Tags, "chunking:content-before-toolcall(default checker)")
 	}
